@@ -12,7 +12,7 @@ THOROUGH = dict(worlds=256, runs=1200, seconds=30)
 RULE = ("seeded blackbox-free circuits x node n (input / internal / output / functionally constant) x endpoint "
         "subsets; distinct = canonical net + node + endpoints; non-trivial = n's function depends on >= 2 startpoints")
 PROBES = ["sp=1", "sp=2", "sp=3", "sp=4", "sp=5", "sp=7", "sp=8", "sensitivity_0", "n_is_input", "n_is_output",
-          "unsat_steps>=2", "sensitize_none", "sensitize_witness", "endpoints_subset", "influence", "sensitivity", "influence_list_form", "same_endpoints_object_for_all_calls", "selection_as_iterator"]
+          "unsat_steps>=2", "sensitize_none", "sensitize_witness", "endpoints_subset", "influence", "sensitivity", "influence_list_form", "same_endpoints_object_for_all_calls", "selection_as_iterator", "node_reaches_no_endpoint"]
 ASSUMPTIONS = ["<= 11 startpoints in the cone of n for the transforms and sensitivity(), <= 6 for influence / avg_sensitivity", "exact mode only (approx=False); the supergates=True variant of "
                "influence is not judged",
                "startpoints named like generated nodes (sat, c0_/c1_/dif_<n>, orig_, inv_, pc_, sen_out_, dif_out_) are avoided: the transforms refuse them with ValueError"]
@@ -257,7 +257,9 @@ def run(case, ctx):
             E = outs
             sub = net
         sps = ref.inputs(sub)
-        if len(sps) <= 10 and (n in ref.transitive_fanin(sub, E) or n in E):
+        if not (n in ref.transitive_fanin(sub, E) or n in E):
+            ctx.probe("node_reaches_no_endpoint")     # nothing can be sensitized: `sat` must be constant 0, sensitize None
+        if len(sps) <= 10:
             tt, _, full = ref.truth_tables(sub, sps)
             tt2, _, _ = ref.truth_tables(sub, sps, fixed={n: tt[n] ^ full})
             want = 0
